@@ -312,19 +312,26 @@ def subPairs (m : GMap) (ps : Pairs) : Pairs :=
 
 /-! ## Subset -/
 
+/-- one call of `addGsubGlyphs` (nothing to do without a GSUB table) -/
+def gsubRound (f : Font) (ro : List Rule → List Rule) (s : St) : Option St :=
+  match f.gsub with
+  | none => some s
+  | some l => gsubClose ro s l
+
+/-- one call of `addComponents` (TrueType outlines only) with the `pop` results `ps` -/
+def glyfRound (f : Font) (ps : List Gid) (s : St) : Option St :=
+  if f.isCFF then some s else closeGlyf f ps s s.glyphs
+
 /-- the outer loop of `Subset`: `addGsubGlyphs` and `addComponents` are repeated until a round adds
 no glyph; round `k` uses the rule order `ro k` and the `pop` results `pss[k]`.  `none` = the oracle is
 not a run of the code (an illegal or missing `pop` sequence) -/
 def closeAll (f : Font) (ro : Nat → List Rule → List Rule) : Nat → List (List Gid) → St → Option St
   | _, [], _ => none
   | k, ps :: rest, s =>
-    let s1? := match f.gsub with
-      | none => some s
-      | some l => gsubClose (ro k) s l
-    match s1? with
+    match gsubRound f (ro k) s with
     | none => none
     | some s1 =>
-      match (if f.isCFF then some s1 else closeGlyf f ps s1 s1.glyphs) with
+      match glyfRound f ps s1 with
       | none => none
       | some s2 =>
         if s2.glyphs.length = s.glyphs.length then some s2 else closeAll f ro (k + 1) rest s2
